@@ -8,8 +8,10 @@ import (
 	"encoding/json"
 	"fmt"
 	"io"
+	"log"
 	"net/http"
 	"net/http/httptest"
+	"os"
 	"strings"
 	"sync"
 	"sync/atomic"
@@ -36,7 +38,10 @@ func Open() {
 	if opened {
 		return
 	}
-	dvid.SetLogMode(dvid.WarningMode)
+	dvid.SetLogMode(dvid.SilentMode)
+	if os.Getenv("VERIF_SERVER_LOG") == "" {
+		log.SetOutput(io.Discard) // goji's request logger and dvid's logger both write through the std logger
+	}
 	if err := server.OpenTest(); err != nil {
 		panic(err)
 	}
@@ -87,10 +92,8 @@ func (r Resp) IsPanic() bool {
 
 // Do issues one request through the full middleware stack.
 func Do(method, url string, body []byte) Resp {
-	var rd io.Reader
-	if body != nil {
-		rd = bytes.NewReader(body)
-	}
+	// a real net/http server always hands handlers a non-nil Body, so never pass nil here
+	var rd io.Reader = bytes.NewReader(body)
 	if !strings.HasPrefix(url, "/") {
 		url = "/api/" + url
 	}
